@@ -206,6 +206,10 @@ def check_agree(case, ctx):
             ctx.fail("C10/agree/variable-" + nm, sub, "%s: nc %r, txt %r, written %r" % (nm, a, b, e))
     # identical scores
     margs = metric_args(spec, layout["metric"])
+    if layout["metric"] == "pit" and (var.get("x0") is not None or var.get("x1") is not None):
+        # PIT values at the discrete mass are randomised (known finding C18/*/pit-randomized): excluded by construction
+        ctx.exclude("pit-randomized (C18 known finding)")
+        margs = None
     if margs is not None:
         tail = ["-m", layout["metric"], "-x", layout["axis"], "-type", "csv"] + margs
         np.random.seed(7)
